@@ -85,6 +85,7 @@ def lazy_vs_eager(run: Any) -> list[Any]:
                 if name not in lazy_sig:
                     out.append((f"C09 {sc.name} eagerly parsed node missing after lazy expansion", f"{name.split('.vms.')[0]} is parsed up front but never appears when the single worker expands the graph lazily", {}))
     out += structure.worker_copies(run.graph, sc.name)
+    out += structure.visits_kept(run)
     return out
 
 
@@ -228,7 +229,7 @@ def replay_bridge(data: dict[str, Any]) -> tuple[bool, str]:
 def check_twice(ctx: common.Context) -> None:
     """(d) parsing the same input twice yields the same graph; (b) on eager graphs."""
     trav.install()
-    names = ["G2", "G3", "G1x3", "G4g"] + (["G4", "G6b", "G23"] if ctx.thorough else [])
+    names = ["G2", "G3", "G1x3", "G4g", "G4fx3"] + (["G4", "G6b", "G23"] if ctx.thorough else [])
     for name in names:
         sc = trav.menu(name, lazy=False)
         g1 = trav.prepare(symx.Engine(), sc, trav.Config()).graph
